@@ -319,8 +319,8 @@ def helpers_oracle(ctx, valid):
         for e in r.get('seq', []):
             ctx.count(('helper', e['u']))
             ev = e['eval']
-            if ev.get('kind') == 'num':
-                continue            # a plain number is not a unit: outside what the helpers are for
+            if ev.get('kind') == 'num' or not any(ch.isalpha() for ch in e['u']) or ev.get('exc') == 'OverflowError':
+                continue            # a plain number (or a numeric expression beyond the range of a double) is not a unit: outside what the helpers are for
             for nm in ('to_si', 'from_si', 'with'):
                 h = e[nm]
                 if nm == 'from_si' and ev.get('v') == 0:
